@@ -567,36 +567,61 @@ def c14(args):
 
 
 def c07(args):
-    """Solver-shaped long histories and corner configurations must return normally."""
+    """Solver-shaped histories and corner configurations must return normally (bounded so that the pinned tree needs ~10 s)."""
     import time
+    import warnings
     bad = []
-    t_start = time.time()
-    cfgs = [dict(), dict(cache_size=0), dict(cache_size=1), dict(cache_size=None), dict(dt=1e-4), dict(tol=1e-3, halfway_tree=True),
-            dict(tol=1e-2, dt=1e-4, cache_size=1), dict(levy_area_approximation='space-time')]
-    for kw in cfgs:
-        N = 3000 if kw.get('halfway_tree') else 20000
+
+    def guarded(label, fn):
         try:
+            with warnings.catch_warnings():
+                warnings.simplefilter('ignore')
+                fn()
+        except (RecursionError, AttributeError, KeyError, ZeroDivisionError, IndexError, TypeError) as e:
+            bad.append((label, type(e).__name__, str(e)[:80]))
+    cfgs = [dict(), dict(cache_size=0), dict(cache_size=1), dict(cache_size=None), dict(dt=1e-3), dict(tol=1e-3, halfway_tree=True),
+            dict(tol=1e-2, dt=1e-3, cache_size=1), dict(levy_area_approximation='space-time')]
+    for kw in cfgs:
+        _t = time.time()
+        N = 300 if kw.get('halfway_tree') else (150 if kw.get('cache_size', 45) in (0, 1) and 'dt' not in kw else 2500)   # small caches: quadratic cost
+
+        def run(kw=kw, N=N):
             bm = torchsde.BrownianInterval(0., 1., size=(1,), entropy=1, **kw)
             for k in range(N):
                 bm(k / N, (k + 1) / N)
-            for k in reversed(range(N - 200, N)):
+            for k in reversed(range(max(0, N - 100), N)):
                 bm(k / N, (k + 1) / N)
             bm(0., 1. / N)
-            bm(0.3, 0.3 + 1e-12) if kw.get('tol') else None
+            if kw.get('tol'):
+                bm(0.3, 0.3 + 1e-12)
             c = getattr(bm, '_increment_and_space_time_levy_area_cache', None)
             cs = kw.get('cache_size', 45)
             if cs is not None and c is not None and hasattr(c, '__len__') and len(c) > cs:
-                bad.append((kw, 'cache holds more than cache_size entries', len(c)))
-        except (RecursionError, AttributeError, KeyError, ZeroDivisionError) as e:
-            bad.append((kw, type(e).__name__, str(e)[:80]))
-        if time.time() - t_start > 110:
-            break
-    try:
+                bad.append((str(kw), 'cache holds more than cache_size entries', len(c)))
+        guarded(str(kw), run)
+        if args.get("timing"):
+            print(kw, round(time.time() - _t, 2), flush=True)
+    # end points that are not multiples of the tolerance; queries reaching both ends
+    for (t0, t1, kw) in ((0.0004, 1.0006, dict(tol=1e-3)), (0.0004, 1.0006, dict(tol=1e-3, halfway_tree=True)), (0.1, 0.7000001, dict(tol=1e-6, dt=0.05))):
+        def run(t0=t0, t1=t1, kw=kw):
+            bm = torchsde.BrownianInterval(t0, t1, size=(1,), entropy=2, **kw)
+            bm(t0, t1)
+            bm(t0, 0.5 * (t0 + t1))
+            bm(0.5 * (t0 + t1), t1)
+        guarded(f'BrownianInterval({t0},{t1},{kw})', run)
+
+    def tree():
+        bt = torchsde.BrownianTree(0., torch.zeros(1), t1=2. / 3.)
+        bt(2. / 3.)
+        bt(0.)
+        bt(1. / 3.)
+    guarded('BrownianTree(t1=2/3)', tree)
+
+    def path():
         bp = torchsde.BrownianPath(0., torch.zeros(1))
         for k in range(1200):
             bp(k / 1200.)
-    except (RecursionError, AttributeError) as e:
-        bad.append(('BrownianPath point evaluations', type(e).__name__))
+    guarded('BrownianPath point evaluations', path)
     return {'reproduced': bool(bad), 'detail': [str(b) for b in bad[:6]]}
 
 
